@@ -23,7 +23,7 @@ LEGAL_FAULTS = ('short', 'EINTR')   # the io stack must absorb these: the operat
 
 RUN_CLASSES = ('faultfree', 'faulty', 'realdisk', 'long')
 
-C19_KINDS = ['list', 'tlist', 'tuple', 'ttuple', 'vtuple', 'dict', 'tdict', 'opt', 'union', 'lit', 'cls', 'enum',
+C19_KINDS = ['odict', 'list', 'tlist', 'tuple', 'ttuple', 'vtuple', 'dict', 'tdict', 'opt', 'union', 'lit', 'cls', 'enum',
              'gen', 'set', 'tseq', 'ann', 'vol', 'range', 'dl', 'tl']
 C19_SCALARS = ['int', 'float', 'str', 'bool', 'none', 'Fraction', 'Decimal', 'date', 'datetime', 'time',
                'PurePath', 'bytes', 'str', 'int', 'str', 'Opaque']
